@@ -1,4 +1,4 @@
-package main
+package racx
 
 // An independent structural validator and decoder for RAC files, written from
 // doc/spec/rac-spec.md. It shares no code with lib/rac: own little-endian
@@ -16,33 +16,33 @@ import (
 	"io"
 )
 
-type specRange struct{ Lo, Hi int64 }
+type SpecRange struct{ Lo, Hi int64 }
 
-func (r specRange) size() int64 { return r.Hi - r.Lo }
+func (r SpecRange) Size() int64 { return r.Hi - r.Lo }
 
-type specCodec struct {
+type SpecCodec struct {
 	Long bool
 	ID   uint64 // short: low 6 bits of the codec byte; long: the 7 bytes, little-endian
 }
 
-type specLeaf struct {
-	D          specRange
-	P, S, T    specRange
+type SpecLeaf struct {
+	D          SpecRange
+	P, S, T    SpecRange
 	STag, TTag uint8
-	Codec      specCodec
+	Codec      SpecCodec
 	Depth      int
 }
 
-type specFile struct {
+type SpecFile struct {
 	DSize       int64
 	RootAtStart bool
 	RootOff     int64
-	Leaves      []specLeaf
+	Leaves      []SpecLeaf
 	Nodes       int
 	MaxDepth    int
 }
 
-func sU48(b []byte) int64 {
+func U48(b []byte) int64 {
 	return int64(uint64(b[0]) | uint64(b[1])<<8 | uint64(b[2])<<16 | uint64(b[3])<<24 | uint64(b[4])<<32 | uint64(b[5])<<40)
 }
 
@@ -56,21 +56,21 @@ func (n *specNode) dptr(i int) int64 {
 	if i == 0 {
 		return 0
 	}
-	return sU48(n.b[8*i:])
+	return U48(n.b[8*i:])
 }
-func (n *specNode) ttag(i int) uint8   { return n.b[8*i+7] }
-func (n *specNode) codecByte() uint8   { return n.b[8*n.arity+7] }
-func (n *specNode) cptr(i int) int64   { return sU48(n.b[8*n.arity+8+8*i:]) }
-func (n *specNode) clen(i int) uint8   { return n.b[8*n.arity+8+8*i+6] }
-func (n *specNode) stag(i int) uint8   { return n.b[8*n.arity+8+8*i+7] }
-func (n *specNode) cptrMax() int64     { return n.cptr(n.arity) }
-func (n *specNode) dptrMax() int64     { return n.dptr(n.arity) }
-func (n *specNode) version() uint8     { return n.b[16*n.arity+8+6] }
-func (n *specNode) mixBit() bool       { return n.codecByte()&0x40 != 0 }
-func (n *specNode) codec() (specCodec, error) {
+func (n *specNode) ttag(i int) uint8 { return n.b[8*i+7] }
+func (n *specNode) codecByte() uint8 { return n.b[8*n.arity+7] }
+func (n *specNode) cptr(i int) int64 { return U48(n.b[8*n.arity+8+8*i:]) }
+func (n *specNode) clen(i int) uint8 { return n.b[8*n.arity+8+8*i+6] }
+func (n *specNode) stag(i int) uint8 { return n.b[8*n.arity+8+8*i+7] }
+func (n *specNode) cptrMax() int64   { return n.cptr(n.arity) }
+func (n *specNode) dptrMax() int64   { return n.dptr(n.arity) }
+func (n *specNode) version() uint8   { return n.b[16*n.arity+8+6] }
+func (n *specNode) mixBit() bool     { return n.codecByte()&0x40 != 0 }
+func (n *specNode) codec() (SpecCodec, error) {
 	cb := n.codecByte()
 	if cb&0x80 == 0 {
-		return specCodec{false, uint64(cb & 0x3F)}, nil
+		return SpecCodec{false, uint64(cb & 0x3F)}, nil
 	}
 	c64 := int(cb & 0x3F)
 	for j := 0; j < 4; j++ {
@@ -78,10 +78,10 @@ func (n *specNode) codec() (specCodec, error) {
 		if i < n.arity && n.ttag(i) == 0xFD {
 			p := n.b[8*n.arity+8+8*i:]
 			id := uint64(p[0]) | uint64(p[1])<<8 | uint64(p[2])<<16 | uint64(p[3])<<24 | uint64(p[4])<<32 | uint64(p[5])<<40 | uint64(p[6])<<48
-			return specCodec{true, id}, nil
+			return SpecCodec{true, id}, nil
 		}
 	}
-	return specCodec{}, errors.New("long codec without a 0xFD element")
+	return SpecCodec{}, errors.New("long codec without a 0xFD element")
 }
 
 // parseNode applies the "Branch Node Validation" section to the bytes at off.
@@ -177,28 +177,28 @@ func findRoot(file []byte) (*specNode, bool, error) {
 	return n, false, nil
 }
 
-func makeCRange(n *specNode, cbias int64, i int) specRange {
+func makeCRange(n *specNode, cbias int64, i int) SpecRange {
 	max := cbias + n.cptrMax()
 	if i >= n.arity {
-		return specRange{max, max}
+		return SpecRange{max, max}
 	}
 	lo := cbias + n.cptr(i)
 	hi := max
 	if l := int64(n.clen(i)); l != 0 && lo+l*1024 < hi {
 		hi = lo + l*1024
 	}
-	return specRange{lo, hi}
+	return SpecRange{lo, hi}
 }
 
 // ValidateRAC walks the whole tree depth first, validating every branch node
 // and every parent/child pair, and returns the non-empty leaves in DSpace
 // order. maxNodes bounds the walk (hostile files).
-func ValidateRAC(file []byte, maxNodes int) (*specFile, error) {
+func ValidateRAC(file []byte, maxNodes int) (*SpecFile, error) {
 	root, atStart, err := findRoot(file)
 	if err != nil {
 		return nil, err
 	}
-	sf := &specFile{DSize: root.dptrMax(), RootAtStart: atStart, RootOff: root.off}
+	sf := &SpecFile{DSize: root.dptrMax(), RootAtStart: atStart, RootOff: root.off}
 	var walk func(n *specNode, cbias, dbias int64, depth int) error
 	walk = func(n *specNode, cbias, dbias int64, depth int) error {
 		sf.Nodes++
@@ -215,8 +215,8 @@ func ValidateRAC(file []byte, maxNodes int) (*specFile, error) {
 			if t == 0xFD {
 				continue
 			}
-			d := specRange{dbias + n.dptr(a), dbias + n.dptr(a+1)}
-			if d.size() == 0 {
+			d := SpecRange{dbias + n.dptr(a), dbias + n.dptr(a+1)}
+			if d.Size() == 0 {
 				continue // empty elements are skipped, even branch nodes
 			}
 			if t == 0xFE {
@@ -249,8 +249,8 @@ func ValidateRAC(file []byte, maxNodes int) (*specFile, error) {
 				if ccbias+c.cptrMax() > coffMax {
 					return fmt.Errorf("node at %d child %d: COffMax exceeds parent's", n.off, a)
 				}
-				if c.dptrMax() != d.size() {
-					return fmt.Errorf("node at %d child %d: DPtrMax %d != slot size %d", n.off, a, c.dptrMax(), d.size())
+				if c.dptrMax() != d.Size() {
+					return fmt.Errorf("node at %d child %d: DPtrMax %d != slot size %d", n.off, a, c.dptrMax(), d.Size())
 				}
 				if !(c.off < n.off || c.dptrMax() < n.dptrMax()) {
 					return fmt.Errorf("node at %d child %d: anti-loop rule violated", n.off, a)
@@ -260,9 +260,9 @@ func ValidateRAC(file []byte, maxNodes int) (*specFile, error) {
 				}
 				continue
 			}
-			lf := specLeaf{D: d, P: makeCRange(n, cbias, a), S: makeCRange(n, cbias, int(n.stag(a))),
+			lf := SpecLeaf{D: d, P: makeCRange(n, cbias, a), S: makeCRange(n, cbias, int(n.stag(a))),
 				T: makeCRange(n, cbias, int(t)), STag: n.stag(a), TTag: t, Codec: pc, Depth: depth}
-			for _, r := range []specRange{lf.P, lf.S, lf.T} {
+			for _, r := range []SpecRange{lf.P, lf.S, lf.T} {
 				if r.Lo > r.Hi || r.Lo < 0 || r.Hi > int64(len(file)) {
 					return fmt.Errorf("node at %d leaf %d: CRange [%d,%d) malformed or outside the file", n.off, a, r.Lo, r.Hi)
 				}
@@ -287,16 +287,16 @@ func ValidateRAC(file []byte, maxNodes int) (*specFile, error) {
 	return sf, nil
 }
 
-// stubCodecID is the Long Codec of the harness's identity codec: the 7 bytes
+// StubCodecID is the Long Codec of the harness's identity codec: the 7 bytes
 // "verifID".
-const stubCodecID = uint64('v') | uint64('e')<<8 | uint64('r')<<16 | uint64('i')<<24 | uint64('f')<<32 | uint64('I')<<40 | uint64('D')<<48
+const StubCodecID = uint64('v') | uint64('e')<<8 | uint64('r')<<16 | uint64('i')<<24 | uint64('f')<<32 | uint64('I')<<40 | uint64('D')<<48
 
-// loadSpecDict parses the "Common Dictionary Format".
-func loadSpecDict(file []byte, r specRange) ([]byte, error) {
-	if r.size() == 0 {
+// LoadSpecDict parses the "Common Dictionary Format".
+func LoadSpecDict(file []byte, r SpecRange) ([]byte, error) {
+	if r.Size() == 0 {
 		return nil, nil
 	}
-	if r.size() < 8 {
+	if r.Size() < 8 {
 		return nil, errors.New("dictionary range shorter than 8 bytes")
 	}
 	b := file[r.Lo:r.Hi]
@@ -304,7 +304,7 @@ func loadSpecDict(file []byte, r specRange) ([]byte, error) {
 	if n>>30 != 0 {
 		return nil, errors.New("dictionary length reserved bits set")
 	}
-	if n+8 > r.size() {
+	if n+8 > r.Size() {
 		return nil, errors.New("dictionary longer than its range")
 	}
 	d := b[4 : 4+n]
@@ -318,19 +318,19 @@ func loadSpecDict(file []byte, r specRange) ([]byte, error) {
 // DecodeSpec reconstructs the DFile of a validated file for the codecs the
 // harness can decode independently (Zeroes, Zlib via compress/zlib, the stub).
 // ok is false when some leaf uses another codec (LZ4, Zstandard).
-func DecodeSpec(file []byte, sf *specFile) (out []byte, ok bool, err error) {
+func DecodeSpec(file []byte, sf *SpecFile) (out []byte, ok bool, err error) {
 	out = make([]byte, 0, sf.DSize)
 	for i, l := range sf.Leaves {
-		want := l.D.size()
+		want := l.D.Size()
 		var got []byte
 		switch {
 		case !l.Codec.Long && l.Codec.ID == 0, l.Codec.Long && l.Codec.ID == 0:
 			// RAC + Zeroes.
 		case !l.Codec.Long && l.Codec.ID == 1:
-			if l.S.size() != 0 && l.TTag != 0xFF {
+			if l.S.Size() != 0 && l.TTag != 0xFF {
 				return nil, true, fmt.Errorf("leaf %d: dictionary leaf with TTag %#x", i, l.TTag)
 			}
-			dict, derr := loadSpecDict(file, l.S)
+			dict, derr := LoadSpecDict(file, l.S)
 			if derr != nil {
 				return nil, true, fmt.Errorf("leaf %d: %v", i, derr)
 			}
@@ -342,9 +342,9 @@ func DecodeSpec(file []byte, sf *specFile) (out []byte, ok bool, err error) {
 			if zerr != nil {
 				return nil, true, fmt.Errorf("leaf %d: zlib: %v", i, zerr)
 			}
-		case l.Codec.Long && l.Codec.ID == stubCodecID:
+		case l.Codec.Long && l.Codec.ID == StubCodecID:
 			var serr error
-			got, serr = stubDecode(file, l.P, l.S, l.T)
+			got, serr = StubDecode(file, l.P, l.S, l.T)
 			if serr != nil {
 				return nil, true, fmt.Errorf("leaf %d: stub: %v", i, serr)
 			}
